@@ -26,6 +26,7 @@
 //	crvote <c> <v>                        environment: CRC vote output for candidate c
 //	crcancel <c>                          UnregisterCR, real context check
 //	crret <c> <inp> <tinp> <change> <out> <utxos>   ReturnCRDepositCoin, real context check
+//	pool <k> <a> <b>                      does the pool's conflict manager refuse tx b of stake key k while tx a is pooled (hook)
 //	end                                   State.ProcessBlock + Committee.ProcessBlock; prints every account, stake, CR deposit
 package main
 
@@ -60,6 +61,7 @@ import (
 	crstate "github.com/elastos/Elastos.ELA/cr/state"
 	"github.com/elastos/Elastos.ELA/crypto"
 	"github.com/elastos/Elastos.ELA/dpos/state"
+	"github.com/elastos/Elastos.ELA/mempool"
 )
 
 // ---------------------------------------------------------------- deterministic keys
@@ -115,6 +117,7 @@ type world struct {
 	newUtxo []*utxo // created by txs queued in the current block
 	nonce   uint32
 	blockIn map[int]bool // utxo ids used as inputs in the current block
+	redo    bool         // disconnect the block again (RollbackTo) and connect it a second time
 }
 
 var w *world
@@ -378,18 +381,32 @@ func exec(t []string) string {
 			panic("harness: end outside block")
 		}
 		blk := &types.Block{Header: ctypes.Header{Height: w.height, Timestamp: w.height * 120}, Transactions: w.pending}
+		process := func() {
 		w.st.ProcessBlock(blk, nil, 0)
-		func() {
-			defer func() {
-				if e := recover(); e != nil {
-					if os.Getenv("HX_DEBUG") != "" {
-						fmt.Fprintln(os.Stderr, string(debug.Stack()))
+			func() {
+				defer func() {
+					if e := recover(); e != nil {
+						if os.Getenv("HX_DEBUG") != "" {
+							fmt.Fprintln(os.Stderr, string(debug.Stack()))
+						}
+						panic(e)
 					}
-					panic(e)
-				}
+				}()
+				w.cm.ProcessBlock(blk, nil)
 			}()
+		}
+		process()
+		if w.redo && w.height < 2 { // Committee.RollbackTo(0) never terminates (uint32 loop counter); nothing to disconnect to
+			w.redo = false
+		}
+		if w.redo { // a reorganisation that disconnects this block and connects the same block again must change nothing
+			w.redo = false
+			// only the CR committee is disconnected and re-connected (rollback of dpos/state is C21's subject)
+			if err := w.cm.RollbackTo(w.height - 1); err != nil {
+				return "rollback-error"
+			}
 			w.cm.ProcessBlock(blk, nil)
-		}()
+		}
 		w.inBlock = false
 		for id := range w.blockIn {
 			w.utxos[id].spent = true
@@ -400,6 +417,46 @@ func exec(t []string) string {
 		panic("harness: tx outside block")
 	}
 	switch t[0] {
+	case "redo":
+		w.redo = true
+		return "queued"
+	case "pool": // pool <k> <a> <b>: does the transaction pool refuse tx b of stake key k while tx a of the same key is pooled?
+		// kinds: vote, stake, retv0 (payload V0 authorised by k, program of another key), retv1 (Schnorr version, program k)
+		o := int(i64(t[1]))
+		k := w.stake(o)
+		other := w.stake(o + 1)
+		mkPool := func(kind string) interfaces.Transaction {
+			switch kind {
+			case "vote":
+				pl := &payload.Voting{Contents: []payload.VotesContent{{VoteType: outputpayload.DposV2,
+					VotesInfo: []payload.VotesWithLockTime{{Candidate: k.pk, Votes: 1, LockTime: w.height + 10}}}}}
+				return w.mk(ctypes.Voting, payload.VoteVersion, pl, nil, nil, []*program.Program{{Code: k.code, Parameter: []byte{0}}})
+			case "stake":
+				return w.mk(ctypes.ExchangeVotes, 0, &payload.ExchangeVotes{}, nil,
+					[]*ctypes.Output{{AssetID: core.ELAAssetID, ProgramHash: *w.params.StakePoolProgramHash, Value: 1, Type: ctypes.OTStake,
+						Payload: &outputpayload.ExchangeVotesOutput{StakeAddress: stakeAddr(k)}}},
+					[]*program.Program{{Code: k.code, Parameter: []byte{0}}})
+			case "retv0":
+				pl := &payload.ReturnVotes{ToAddr: standardHash(k), Value: 20000, Code: k.code}
+				return w.mk(ctypes.ReturnVotes, payload.ReturnVotesVersionV0, pl, nil, nil, []*program.Program{{Code: other.code, Parameter: []byte{0}}})
+			case "retv1":
+				pl := &payload.ReturnVotes{ToAddr: standardHash(k), Value: 20000}
+				return w.mk(ctypes.ReturnVotes, payload.ReturnVotesSchnorrVersion, pl, nil, nil, []*program.Program{{Code: k.code, Parameter: []byte{0}}})
+			}
+			panic("harness: unknown pool kind " + kind)
+		}
+		defer func() {
+			if e := recover(); e != nil {
+				if os.Getenv("HX_DEBUG") != "" {
+					fmt.Fprintln(os.Stderr, string(debug.Stack()))
+				}
+				panic(e)
+			}
+		}()
+		if mempool.VerifConflict(mkPool(t[2]), mkPool(t[3])) {
+			return "conflict"
+		}
+		return "free"
 	case "reg":
 		o := int(i64(t[1]))
 		k := w.owner(o)
